@@ -817,6 +817,11 @@ where
         let jobs_done_future = server.wait_all();
         pin_mut!(jobs_done_future);
         wait_for(jobs_done_future, job_futures.as_mut()).await?;
+        // All of our children have exited, but wait_for may have returned
+        // before their completion handlers ran.  Record their results and
+        // release their locks now: we must not block on another builder's
+        // lock below while still holding locks of our own finished jobs.
+        while let Some(Some(())) = job_futures.next().now_or_never() {}
         let errored = {
             let r = result.replace(Ok(()));
             let errored = r.is_err();
